@@ -75,7 +75,10 @@ type wheelRun struct {
 	stamp   int32 // atomic, read by AfterFunc callbacks: number of the tick whose close step is running or was the last to complete
 	stepNo  int
 	timers  map[int]*loom.WheelTimer
+	empty   map[int]bool // threads without any operation (coop would block on them)
 }
+
+func (r *wheelRun) enabled(tid int) bool { return !r.empty[tid] && r.s.Enabled(tid) }
 
 func (r *wheelRun) poll(closeStep bool) {
 	for _, q := range r.reqs {
@@ -112,6 +115,9 @@ func (r *wheelRun) pendingCallbacks() bool {
 func (r *wheelRun) step(tid int) coop.Event {
 	boundary := tid >= 0 && tid < len(r.s.Threads) && r.s.Threads[tid].AtSite == 0
 	closedBefore := int(r.closed)
+	if r.empty[tid] {
+		return coop.Event{Kind: coop.KDone}
+	}
 	if tid == 0 && !boundary && r.s.Threads[0].AtSite == loom.VerifSiteWheelTickClose {
 		atomic.StoreInt32(&r.stamp, r.closed+1)
 	}
@@ -230,7 +236,14 @@ func init() {
 		r := &wheelRun{cur: map[int]*wreq{}, timers: map[int]*loom.WheelTimer{}}
 		r.w = loom.NewWheel(time.Duration(atoi(m["step"])), n)
 		defer r.w.Close()
-		r.s = coop.New(r.progs(m["progs"], atoi(m["ticks"])))
+		progs := r.progs(m["progs"], atoi(m["ticks"]))
+		r.empty = map[int]bool{}
+		for i, p := range progs {
+			if len(p) == 0 {
+				r.empty[i] = true
+			}
+		}
+		r.s = coop.New(progs)
 		// only the wheel's own yield sites are scheduled: the wheel's goLoop goroutine (unmanaged,
 		// started by NewWheel) passes WaitClose yield sites at an arbitrary moment
 		loom.VerifYield = func(site int) {
@@ -253,7 +266,7 @@ func init() {
 		for k := 0; k < 4096; k++ {
 			progressed := false
 			for i := range r.s.Threads {
-				if r.s.Enabled(i) {
+				if r.enabled(i) {
 					ev := r.step(i)
 					if !first {
 						sb.WriteByte(',')
@@ -272,7 +285,7 @@ func init() {
 			return sb.String() + " LIVELOCK"
 		}
 		// n more ticks, no interleaving, so that every obtained channel fires
-		tickerDead := len(r.s.Threads) > 0 && !r.s.Enabled(0) && r.started != int(r.closed)
+		tickerDead := len(r.s.Threads) > 0 && !r.enabled(0) && r.started != int(r.closed)
 		if !tickerDead {
 			for k := 0; k < n; k++ {
 				atomic.StoreInt32(&r.stamp, r.closed+1)
